@@ -164,7 +164,13 @@ ImplMel(mode, def) ==
   CASE def.kind = "struct" -> ImplMelFields(mode, def.fs)
     [] def.kind = "enum" ->
          LET ks == SetToSortSeq(NonSkipped(def), <)
-             ls == [j \in 1..Len(ks) |-> ImplMelFields(mode, def.vs[ks[j]].fs)]
+             \* mode "mel_dedup" (a seeded change): one term per distinct list of field *types* - a later variant with the
+             \* same types as an earlier one is dropped although its attributes give it a longer wire form
+             shape(j) == LET keep == SelectSeq(def.vs[ks[j]].fs, LAMBDA x : ~Skipped(x)) IN [i \in 1..Len(keep) |-> keep[i].ty]
+             lsAll == [j \in 1..Len(ks) |-> ImplMelFields(mode, def.vs[ks[j]].fs)]
+             ls == IF mode = "mel_dedup"
+                   THEN [j \in 1..Len(ks) |-> IF \E i \in 1..(j - 1) : shape(i) = shape(j) THEN 0 ELSE lsAll[j]]
+                   ELSE lsAll
          IN IF \E j \in 1..Len(ls) : ls[j] = -1 THEN -1
             ELSE 1 + FoldLeft(LAMBDA a, x : MaxOf(a, x), 0, ls)
 =============================================================================
